@@ -197,3 +197,67 @@ def r5(c):
     for e, reg in arms.get('Broadcast', []):
         okb = any(cs.is_('rodbus::types::UnitId::broadcast') for cs in q.calls_in(v, reg))
     c.ob('value/broadcast', okb, 'FrameDestination::Broadcast.value() is UnitId::broadcast().value', '', loc_of(v))
+
+
+def unit_guard_edges(P, b):
+    """edges of handle_frame on which the frame's destination is known to be served by this server:
+    Some / is_some() of handlers.get(frame unit id), or the true edge of a bool helper that performs that lookup"""
+    out = []
+    for cs in b.calls(HGET):
+        s = q.sem(b, cs.args[1])
+        if q.sem_is_name(b, s, 'frame') and 'destination' in ''.join(s.proj):
+            out += q.outcomes(b, cs).get('Some', [])
+            for u in b.calls('core::option::Option::is_some'):
+                su = q.sem(b, u.args[0])
+                if su.kind == 'call' and su.cs is cs:
+                    out += q.bool_edges(b, u)['true']
+    for cs in b.calls():
+        hb = None
+        for n in cs.names():
+            if P.has(n) and n.startswith('rodbus::server::'):
+                hb = P.get(n)
+        if hb is None or hb.sig_out != 'bool' or len(cs.args) < 2:
+            continue
+        inner = hb.calls(HGET)
+        if not inner:
+            continue
+        # the helper looks up the unit id of ITS destination parameter, and only answers true for UnitId when found
+        okh = all('destination' in q.closure_names(hb, i.args[1]) or any(p in q.closure_names(hb, i.args[1]) for p in ('unit_id', 'dest', 'id')) for i in inner)
+        a = q.sem(b, cs.args[1])
+        if okh and q.sem_is_name(b, a, 'frame') and 'destination' in ''.join(a.proj):
+            out += q.bool_edges(b, cs)['true']
+    return out
+
+
+@rule('C17', 'R17.6', 'exception replies sent before the unit dispatch (unknown function, malformed request) go only to units this server serves')
+def r6(c):
+    P = c.P
+    b = hf(c)
+    E = effects.get(P)
+    auth = one(b.calls(IS_AUTH), 'is_authorized')
+    guards = unit_guard_edges(P, b)
+    early = [cs for cs in b.calls() if not (q.is_tracing(cs) or q.is_fmt(cs) or q.is_machinery(cs)) and 'wire' in E.of_call(cs) and not b.dominates(auth.ret, cs.node)]
+    c.floor('early exception replies', len(early), 2)
+    n = {}
+    for cs in early:
+        nm = cs.callee.rsplit('::', 1)[-1]
+        n[nm] = n.get(nm, 0) + 1
+        c.ob('early-reply/%s#%d' % (nm, n[nm]), q.dominated_by_any(b, guards, cs.node), 'the reply is dominated by a successful lookup of the frame\'s unit id in the handler map',
+             '%d guard edges' % len(guards), cs.loc(), kind='unit-served')
+    # the helper itself: UnitId -> handlers.get(unit).is_some()
+    for cs in b.calls():
+        for nme in cs.names():
+            hb = P.get(nme) if P.has(nme) else None
+            if hb is not None and hb.sig_out == 'bool' and hb.calls(HGET) and nme.startswith('rodbus::server::task::'):
+                arms = q.arms_of(hb, FD)
+                reg = set()
+                for e, r in arms.get('UnitId', []):
+                    reg |= r
+                g = [x for x in q.calls_in(hb, reg) if x.is_(HGET)]
+                ok = len(g) == 1
+                if ok:
+                    s = q.sem(hb, g[0].args[1])
+                    ok = ':UnitId' in ''.join(s.proj)
+                    xs = q.exit_in(hb, reg)
+                    ok = ok and bool(xs) and all(x['kind'] == 'call' and x['cs'].is_('core::option::Option::is_some') and q.sem(hb, x['cs'].args[0]).kind == 'call' and q.sem(hb, x['cs'].args[0]).cs is g[0] for x in xs)
+                c.ob('helper/%s' % nme.rsplit('::', 1)[-1], ok, 'for a unit id the helper answers handlers.get(that unit id).is_some()', '', loc_of(hb))
